@@ -388,7 +388,9 @@ fn clock(threads: usize, readings: usize) {
                     let stop = stop.clone();
                     Some(std::thread::spawn(move || {
                         let mut n = 0u32;
-                        while !stop.load(std::sync::atomic::Ordering::Relaxed) {
+                        // at most 60 signals: an implementation that restarts with the FULL duration after
+                        // EINTR (allowed: only a lower bound is promised) must still be able to finish
+                        while !stop.load(std::sync::atomic::Ordering::Relaxed) && n < 60 {
                             std::thread::sleep(std::time::Duration::from_micros(150));
                             unsafe { libc::pthread_kill(me as libc::pthread_t, libc::SIGUSR1) };
                             n += 1;
